@@ -27,6 +27,8 @@ type Solver struct {
 	LastErr  string
 	depth    int
 	bin      string
+	args     []string
+	paths    int
 	log      io.Writer
 }
 
@@ -47,7 +49,7 @@ func NewSolver(bin string, args ...string) (*Solver, error) {
 	if err := cmd.Start(); err != nil {
 		return nil, err
 	}
-	s := &Solver{cmd: cmd, in: in, out: bufio.NewReaderSize(out, 1<<16), bin: bin}
+	s := &Solver{cmd: cmd, in: in, out: bufio.NewReaderSize(out, 1<<16), bin: bin, args: args}
 	if lf := os.Getenv("GOSYMX_SOLVER_LOG"); lf != "" {
 		if f, err := os.OpenFile(lf, os.O_CREATE|os.O_WRONLY|os.O_TRUNC, 0644); err == nil {
 			s.log = f
@@ -87,7 +89,39 @@ func (s *Solver) Pop()  { s.send("(pop 1)\n"); s.depth-- }
 // z3 keeps per-process symbol tables that make get-value slower and slower when
 // thousands of scopes with fresh definitions are pushed and popped.
 func (s *Solver) BeginPath() {}
-func (s *Solver) EndPath()   { s.send("(reset)\n(set-option :rlimit 40000000)\n") }
+func (s *Solver) EndPath() {
+	s.paths++
+	if s.paths%4000 == 0 && s.recycle() {
+		return
+	}
+	s.send("(reset)\n(set-option :rlimit 40000000)\n")
+}
+
+// recycle replaces the solver process by a fresh one: a z3 that has answered hundreds of
+// thousands of queries keeps growing (2+ GB each after 700 000 paths) although every path
+// ends with (reset).
+func (s *Solver) recycle() bool {
+	s.flush()
+	cmd := exec.Command(s.bin, s.args...)
+	in, err := cmd.StdinPipe()
+	if err != nil {
+		return false
+	}
+	out, err := cmd.StdoutPipe()
+	if err != nil {
+		return false
+	}
+	cmd.Stderr = cmd.Stdout
+	if err := cmd.Start(); err != nil {
+		return false
+	}
+	s.in.Close()
+	s.cmd.Process.Kill()
+	s.cmd.Wait()
+	s.cmd, s.in, s.out = cmd, in, bufio.NewReaderSize(out, 1<<16)
+	s.send("(set-option :rlimit 40000000)\n")
+	return true
+}
 
 // define makes sure t and all its sub-terms are declared/defined.
 func (s *Solver) define(t *Term) {
